@@ -80,6 +80,11 @@ def configs(tier, seed):
     cfgs.append({"tree": ["D", [["a", ["F", "u3", "r"]], ["b", ["F", "u8", "rw"]], ["c", ["F", "s4", "rw"]]]], "access": "rw", "via": "annot_sub"})
     cfgs.append({"tree": ["D", [["zz", ["F", "u8", "w"]]]], "access": "w", "via": "annot_sub"})
     cfgs.append({"tree": ["L", [["F", "u1", "rw"], ["L", [["F", "u3", "r"], ["F", "e2", "w"]]], ["D", [["x", ["F", "s4", "rw"]]]]]], "access": "rw", "via": "arg"})
+    # deep nesting (6 levels, alternating dicts and lists) with leaves at several depths
+    deep = ["F", "u3", "rw"]
+    for lvl in range(6):
+        deep = ["D", [[f"a{lvl}", ["F", "u8", "r"]], [f"n{lvl}", deep], [f"z{lvl}", ["F", "s4", "rw"]]]] if lvl % 2 == 0 else ["L", [["F", "u1", "w"], deep, ["F", "e2", "rw"]]]
+    cfgs.append({"tree": deep, "access": "rw", "via": "arg"})
     cfgs.append({"tree": ["D", [["a", ["F", "u3", "rw"]]]], "access": "r", "via": "arg"})     # must be rejected
     cfgs.append({"tree": ["D", [["a", ["F", "u3", "r"]]]], "access": "w", "via": "arg"})      # must be rejected
     n = 120 if tier == "quick" else 1500
@@ -260,6 +265,25 @@ def main(run: Run):
     except Unsupported as e:
         run.functions["amaranth_soc.csr.reg.Register.elaborate [statements issued]"] = f"unsupported: {e} (the per-configuration clauses decide)"
         run.bounded_notes.append(f"Register.elaborate: outside the pyvc subset on this tree ({e}); per-configuration clauses decide")
+    # L1: the order in which fields are visited (flatten of nested collections, Register.__iter__) and what __init__ derives from it
+    try:
+        from contracts import fields as cf
+        obs_f = []
+        for f in cf.ALL:
+            fvf = f()
+            run.functions["amaranth_soc." + fvf.qualname] = f"proved ({fvf.paths} paths, {len(fvf.obs)} obligations)"
+            obs_f += fvf.obs
+        run.require("csr.reg.FieldActionMap.flatten::container-child:each-of-its-pairs-re-yielded-with-the-key-prepended",
+                    "csr.reg.FieldActionArray.flatten::leaf-child-yields-exactly-(key,)-and-itself",
+                    "csr.reg.Register.__iter__::collection:exactly-its-flatten()",
+                    "csr.reg.Register.__init__[widths and access]::element-width-is-the-sum-of-all-field-widths",
+                    "csr.reg.Register.__init__[widths and access]::side-condition:refuses-with-ValueError-only-a-field-the-access-mode-cannot-serve")
+        run.assumptions.append("field order contracts: one arbitrary item of a collection with an abstract child (its own flatten() by the same contract one level "
+                               "down: induction over the nesting depth, on paper); dict / list iteration order is insertion order (Python); Register.__init__ "
+                               "is verified for fields passed as an argument (the class-annotation route and Field.create(): bounded C11 configurations)")
+        discharge_all(run, obs_f, timeout_ms=10000)
+    except Unsupported as e:
+        run.bounded_notes.append(f"field order / Register.__init__: outside the pyvc subset on this tree ({e}); the bounded clauses decide")
     return run.finish(
         explanation="Register.elaborate contract clauses (packing, slices, strobe fan-out) discharged as QF_BV obligations "
                     "over the NIR netlist for all port values; constructor clauses evaluated natively per configuration. "
